@@ -69,15 +69,18 @@ func c22Keys() {
 // ---- simulated IdP behind the transport seam
 
 type c22IdP struct {
-	mu      stdsync.Mutex
-	pub     map[int64]bool // published keys: 0 k1, 1 k2, 3 r1 (k1 and r1 from the start; "rotate" adds k2; "withdraw" removes one)
-	down    bool
-	slow    bool
-	fetches int
-	failed  int
-	clock   int64           // counts mints and successful JWKS deliveries (orders them)
-	gone    map[int64]int64 // key -> clock value of the first JWKS document delivered WITHOUT it since its withdrawal
-	everOut map[int64]bool  // key was withdrawn at some time in this run
+	mu          stdsync.Mutex
+	pub         map[int64]bool // published keys: 0 k1, 1 k2, 3 r1 (k1 and r1 from the start; "rotate" adds k2; "withdraw" removes one)
+	down        bool
+	slow        bool
+	fetches     int
+	failed      int
+	clock       int64           // counts mints and successful JWKS deliveries (orders them)
+	gone        map[int64]int64 // key -> clock value of a JWKS document delivered WITHOUT it since its withdrawal, see settle
+	delivered   int             // successful JWKS deliveries
+	lastLacking []int64         // keys missing from the latest delivered document
+	lastClock   int64           // clock value of that delivery
+	everOut     map[int64]bool  // key was withdrawn at some time in this run
 }
 
 func b64(b []byte) string { return base64.RawURLEncoding.EncodeToString(b) }
@@ -134,11 +137,8 @@ func (p *c22IdP) RoundTrip(req *http.Request) (*http.Response, error) {
 	}
 	p.mu.Lock()
 	p.clock++
-	for _, k := range lacking {
-		if _, seen := p.gone[k]; !seen && !p.pub[k] {
-			p.gone[k] = p.clock
-		}
-	}
+	p.delivered++
+	p.lastLacking, p.lastClock = lacking, p.clock
 	p.mu.Unlock()
 	return &http.Response{StatusCode: 200, Body: io.NopCloser(bytes.NewReader(body)), Header: http.Header{"Content-Type": []string{"application/json"}}, Request: req}, nil
 }
@@ -392,6 +392,7 @@ func (c22Engine) Execute(t *testing.T, c *simrun.Case, keepLog bool) *simrun.Out
 				for k, v := range idp.everOut {
 					outBefore[k] = v
 				}
+				fetchesBefore, deliveredBefore := idp.fetches, idp.delivered
 				idp.mu.Unlock()
 				var wg sync.WaitGroup
 				for cl := 1; cl <= nclients; cl++ {
@@ -445,6 +446,7 @@ func (c22Engine) Execute(t *testing.T, c *simrun.Case, keepLog bool) *simrun.Out
 							case "rotate":
 								idp.mu.Lock()
 								idp.pub[1] = true
+								delete(idp.gone, 1)
 								idp.mu.Unlock()
 							case "withdraw":
 								k := map[int64]int64{0: 0, 1: 1, 2: 3, 3: 3}[op.Arg(1)%4]
@@ -529,6 +531,19 @@ func (c22Engine) Execute(t *testing.T, c *simrun.Case, keepLog bool) *simrun.Out
 					})
 				}
 				wg.Wait()
+				// A withdrawn key counts as gone from this server's key set only when that is beyond doubt: the
+				// phase saw exactly ONE key-set fetch, it was delivered, the IdP did not change during the phase,
+				// and the delivered document lacks the key. (With several fetches in flight the server may
+				// legitimately install an older document last.)
+				idp.mu.Lock()
+				if !idpChanging && idp.fetches-fetchesBefore == 1 && idp.delivered-deliveredBefore == 1 {
+					for _, k := range idp.lastLacking {
+						if _, seen := idp.gone[k]; !seen && !idp.pub[k] {
+							idp.gone[k] = idp.lastClock
+						}
+					}
+				}
+				idp.mu.Unlock()
 				// commit revocation model
 				mu.Lock()
 				for s, ks := range kinds {
